@@ -11,7 +11,7 @@ import tempfile
 import time
 
 VERIF = os.path.abspath(os.path.join(os.path.dirname(os.path.abspath(__file__)), '..'))
-REPO = '/repo'
+REPO = os.environ.get('VERIF_REPO', '/repo')
 SPEC = os.path.join(VERIF, 'spec')
 HARNESS = os.path.join(VERIF, 'harness')
 CACHE = os.path.join(VERIF, '.cache')
